@@ -199,6 +199,8 @@ Part 2, synchronisation.  `WF r`: a present leader has a non-zero peer id (0 is 
   changes, once each, in order, with chained start indexes.
 * `merged_broadcast_exact` – a batch of pending changes sent as one message decodes to the same regions, in order,
   as the changes' own messages (a region reported twice keeps both of its leaders).
+* `failed_save_keeps_cache` – failing region saves on the follower never change its cache; the sync theorems that
+  speak about the next index assume no failing save (`NoFail`).
 * `full_sync_unfixed_counterexample` – F3 on the pinned tree before the repair.
 -/
 
@@ -237,7 +239,7 @@ theorem leader_cache_consistent (h : Buf Region) (rs : List Region) :
 theorem full_sync_follower_eq_leader (batch : Nat) (l : Leader) (regions : List Region)
     (hperm : regions.Perm l.cache) (hcons : l.cache.Pairwise Compat) (hwf : ∀ r ∈ l.cache, WF r)
     (hold : recordsFrom l.hist 0 = []) (hidx : l.hist.index ≠ 0)
-    (f : Follower) (hfc : f.cache = []) (hfi : f.hist.index = 0) :
+    (f : Follower) (hfc : f.cache = []) (hfi : f.hist.index = 0) (hnf : NoFail f) :
     let f' := (syncHistoryRegion batch l f.hist.index regions).foldl applyMsg f
     f'.cache = regions ∧ f'.hist.index = regions.length ∧
     ∀ r ∈ l.cache, Cache.find f'.cache r.md.id = some r := by
@@ -254,7 +256,7 @@ theorem full_sync_follower_eq_leader (batch : Nat) (l : Leader) (regions : List 
     simp
   refine ⟨hcache, ?_, ?_⟩
   · simp only [f', hmsgs]
-    rw [applyMsgs_index _ f 0 hfi hch, hdec]; simp
+    rw [applyMsgs_index _ f hnf 0 hfi hch, hdec]; simp
   · intro r hr
     rw [hcache]
     exact find_of_pairwise regions hc r (hperm.mem_iff.2 hr)
@@ -269,7 +271,7 @@ theorem full_sync_into_follower (batch : Nat) (l : Leader) (regions : List Regio
     (hperm : regions.Perm l.cache) (hcons : l.cache.Pairwise Compat) (hwf : ∀ r ∈ l.cache, WF r)
     (hold : recordsFrom l.hist 0 = []) (hidx : l.hist.index ≠ 0)
     (f : Follower) (hfcons : f.cache.Pairwise Compat) (hnew : ∀ r ∈ l.cache, NotNewer f.cache r)
-    (hfi : f.hist.index = 0) :
+    (hfi : f.hist.index = 0) (hnf : NoFail f) :
     let f' := (syncHistoryRegion batch l f.hist.index regions).foldl applyMsg f
     (∀ r ∈ l.cache, Cache.find f'.cache r.md.id = some r) ∧ f'.cache.Pairwise Compat ∧
     f'.hist.index = regions.length := by
@@ -290,7 +292,7 @@ theorem full_sync_into_follower (batch : Nat) (l : Leader) (regions : List Regio
     exact foldl_applyRegion_into f.cache regions [] f.cache (fun x hx => Or.inl hx) (by intro d hd; cases hd)
       (by simpa using hc) (fun y hy => hnew y (hperm.mem_iff.1 hy)) r (by simpa using hperm.mem_iff.2 hr)
   · simp only [f', hmsgs]
-    rw [applyMsgs_index _ f 0 hfi hch, hdec]; simp
+    rw [applyMsgs_index _ f hnf 0 hfi hch, hdec]; simp
 
 
 /-- **Incremental synchronisation.**  The leader's history buffer is any reachable one (any capacity,
@@ -303,7 +305,7 @@ theorem incremental_sync_follower_eq_leader (batch cap flush : Nat) (kv : Option
     (hreach : l0.hist = (hrun (hinit cap kv flush) ops).buf)
     (rs : List Region) (hwf : ∀ r ∈ rs, WF r)
     (hcap : (acceptedOf l0.cache rs).length ≤ max (hrun (hinit cap kv flush : HState Region) ops).cap 1)
-    (f : Follower) (hfc : f.cache = l0.cache) (hfi : f.hist.index = l0.hist.index)
+    (f : Follower) (hfc : f.cache = l0.cache) (hfi : f.hist.index = l0.hist.index) (hnf : NoFail f)
     (regions : List Region) :
     let l1 := leaderPuts l0 rs
     let f1 := (syncHistoryRegion batch l1 f.hist.index regions).foldl applyMsg f
@@ -384,7 +386,7 @@ theorem incremental_sync_follower_eq_leader (batch cap flush : Nat) (kv : Option
     simp only [f1, hmsgs, List.foldl_cons, List.foldl_nil]
     refine ⟨?_, ?_⟩
     · rw [applyMsg_cache, hdec, hfc]; simp only [l1]; rw [hlc]
-    · rw [applyMsg_index]
+    · rw [(applyMsg_index f hnf _).1]
       have : (incrementalMsg f.hist.index (acc.map some)).regions.length = acc.length := by
         simp [incrementalMsg]
       rw [this, hidx1, hfi]
@@ -468,7 +470,7 @@ theorem merged_broadcast_exact (ms : List Msg) (h : ∀ m ∈ ms, Square m) (m' 
 /-- a live follower (bound stream) that equals the leader stays equal when a changed region is
     broadcast -/
 theorem broadcast_follower_eq_leader (l : Leader) (r : Region) (hwf : WF r) (f : Follower)
-    (hfc : f.cache = l.cache) (hfi : f.hist.index = l.hist.index) :
+    (hfc : f.cache = l.cache) (hfi : f.hist.index = l.hist.index) (hnf : NoFail f) :
     match leaderPut l r with
     | (l', some m) => (applyMsg f m).cache = l'.cache ∧ (applyMsg f m).hist.index = l'.hist.index
     | (l', none) => l' = l := by
@@ -483,8 +485,18 @@ theorem broadcast_follower_eq_leader (l : Leader) (r : Region) (hwf : WF r) (f :
     refine ⟨?_, ?_⟩
     · rw [applyMsg_cache, hdec, hfc]
       simp [applyRegion_accept _ _ hs']
-    · rw [applyMsg_index]
+    · rw [(applyMsg_index f hnf _).1]
       simp [(record_fields l.hist r false).2.2.2.2.1]
+
+/-- **A failing follower write does not touch the follower's view.**  Whatever region saves fail on the follower
+    (once or persistently), after any sequence of received messages its cache is what it would be without
+    failures – every region sent is applied in memory; the next index can only lag behind (a region whose save
+    failed is not recorded), it never runs ahead. -/
+theorem failed_save_keeps_cache (ms : List Msg) (f : Follower) :
+    (ms.foldl applyMsg f).cache = (ms.flatMap decode).foldl applyRegion f.cache ∧
+    (ms.foldl applyMsg f).cache =
+      (ms.foldl applyMsg { f with failOnce := [], failAlways := [] }).cache :=
+  ⟨applyMsgs_cache ms f, by rw [applyMsgs_cache, applyMsgs_cache]⟩
 
 /-- batch size extracted from `server.go`: the theorems above hold for it (they hold for every size) -/
 theorem full_sync_messages_exact_extracted (regions : List Region) (hwf : ∀ r ∈ regions, WF r) :
